@@ -134,12 +134,35 @@ def hostile_for(target: str, rng: random.Random) -> str:
     return hostile_any(rng)
 
 
+HUGE_PREFIX = ["", "a; k*", "text/html;level*", "text/plain; charset*0=utf-; charset*", "bytes=", "bytes=0-", "bytes=-", "bytes 0-1/", "bytes 0-", "max-age=", "a;q=", "a;q=0.",
+               "Thu, 01 Jan ", "1 Jan 2026 ", "Thu, 01 Jan 2026 00:00:00 +", "W/", "Basic ", "sid=", "k=", "-", "+", " ", "1_"]
+HUGE_SUFFIX = ["", "", "=8", "=1; q=0.5", "-", "/5", " GMT", ", b", ";", " 00:00:00 GMT", "."]
+
+
+def huge_number(rng: random.Random) -> str:
+    """a digit run beyond CPython's int<->str conversion limit (4300 digits; `int()` then raises a plain
+    ValueError) in every numeric position a header has: lengths, ages, range positions, q values, RFC 2231
+    continuation numbers, date fields. 4.3 kB of digits is below ordinary server header limits."""
+    n = rng.choice([4301, 4301, 4302, 4400, 5000])
+    d = rng.choice(["1", "9", "0", "7"]) * n
+    return rng.choice(HUGE_PREFIX) + d + rng.choice(HUGE_SUFFIX)
+
+
+def has_huge_number(text: str) -> bool:
+    import re
+
+    return re.search(r"[0-9_]{4301}", text) is not None
+
+
 def hostile_any(rng: random.Random) -> str:
-    return repetition(rng) if rng.random() < 0.25 else hostile(rng)
+    r = rng.random()
+    if r < 0.03:
+        return huge_number(rng)
+    return repetition(rng) if r < 0.27 else hostile(rng)
 
 
-class Timeout(Exception):
-    pass
+class Timeout(BaseException):
+    """BaseException: an `except Exception` inside werkzeug or the harness must not swallow the alarm"""
 
 
 def _alarm(signum, frame):
@@ -425,6 +448,20 @@ def group_pairs(out):
         if k not in keys:
             keys.append(k)
     return ",".join(f"{k}:{v}" for kk in keys for k, v in pairs if k == kk)
+
+
+def group_first(out):
+    """MultiDict.items(multi=True) order for `key:rest` items: keys by first occurrence, each with all
+    its entries"""
+    if out == "[]":
+        return out
+    items = out.split(",")
+    keys = []
+    for it in items:
+        k = it.split(":", 1)[0]
+        if k not in keys:
+            keys.append(k)
+    return ",".join(it for kk in keys for it in items if it.split(":", 1)[0] == kk)
 
 
 def request_attrs():
@@ -879,6 +916,9 @@ class Hostile(Stream):
             ("accept_mime", 'text;profile="https://example.com/schema"'), ("accept_mime", "json;version=1/2"), ("accept_mime", "text/html, x;u=/;q=0.5"), ("accept_mime", "*;p=/"),
             ("accept_mime", 'a;v="b;c/d", text/*'), ("accept", "gzip;v=1/2"), ("accept_lang", "en;v=1/2"), ("accept_charset", "utf-8;v=1/2"),
             # int(): the ASCII separators U+001C..U+001F are white space for str.strip() but not for int()
+            ("age", "\u0967"), ("age", " \u0661_\u0662\u3000"), ("age", "\uff11\uff10"), ("age", "\u0967_"), ("cc_request", "max-age=\u0967\u0966"), ("cc_response", "s-maxage=\u0e51"),
+            ("options", "text/plain; charset*0=utf-; charset*" + "1" * 4301 + "=8"), ("accept_mime", "text/html;level*" + "1" * 4301 + "=1"), ("age", "9" * 4301), ("range", "bytes=0-" + "9" * 4301),
+            ("content_range", "bytes 0-1/" + "9" * 4301), ("cc_request", "max-age=" + "9" * 4301), ("accept_mime", "a;q=0." + "9" * 4301), ("date", "Thu, 01 Jan " + "9" * 4301 + " 00:00:00 GMT"),
             ("age", "5\x1f"), ("age", "\x1c5"), ("age", " 5\x1c"), ("age", "5\x85"), ("age", "\xa05\x0b"), ("cc_request", "max-age=5\x1f"), ("cc_request", "max-age=\x1e5"),
             ("date", "1 Jan 2026 0:0 +2500"), ("date", "\xe9"), ("if_range", '"x"'), ("if_range", "W/"), ("cookie", 'a="\\'), ("cookie", ";;="), ("unquote", '"'), ("unquote", '"\\"'),
         ]]
@@ -897,8 +937,9 @@ class Hostile(Stream):
             ("host", "HTTP_HOST", "a:b"), ("url", "HTTP_HOST", "\xe9:1"), ("url", "HTTP_HOST", "a b"), ("url", "PATH_INFO", "/\xff%zz"), ("path", "PATH_INFO", "\xe9"),
             ("accept_mimetypes", "HTTP_ACCEPT", "text/html;*0=x"), ("date", "HTTP_DATE", "1 Jan 99999999999999999999 0:0:0"),
             ("if_modified_since", "HTTP_IF_MODIFIED_SINCE", "1 Jan 2026 99999999999999999999999:0:0"), ("if_range", "HTTP_IF_RANGE", "Thu, 01 Jan 2026 00:00:00 +99999999999999999999"),
+            ("content_length", "CONTENT_LENGTH", "9" * 4301), ("max_forwards", "HTTP_MAX_FORWARDS", "1" * 4301), ("mimetype_params", "CONTENT_TYPE", "text/plain; charset*" + "1" * 4301 + "=8"),
             ("content_length", "CONTENT_LENGTH", "-5"), ("content_length", "CONTENT_LENGTH", "\xb2"), ("content_length", "CONTENT_LENGTH", "1_0"), ("max_forwards", "HTTP_MAX_FORWARDS", "x"),
-            ("max_forwards", "HTTP_MAX_FORWARDS", " 1_0 "), ("max_forwards", "HTTP_MAX_FORWARDS", "7\x1f"), ("max_forwards", "HTTP_MAX_FORWARDS", "\x1c7"), ("max_forwards", "HTTP_MAX_FORWARDS", "-\xa07"), ("content_length", "HTTP_TRANSFER_ENCODING", "chunked"),
+            ("max_forwards", "HTTP_MAX_FORWARDS", " 1_0 "), ("max_forwards", "HTTP_MAX_FORWARDS", "7\x1f"), ("max_forwards", "HTTP_MAX_FORWARDS", "\xb2"), ("max_forwards", "HTTP_MAX_FORWARDS", "\x1c7"), ("max_forwards", "HTTP_MAX_FORWARDS", "-\xa07"), ("content_length", "HTTP_TRANSFER_ENCODING", "chunked"),
             ("content_length", "HTTP_TRANSFER_ENCODING", "Chunked"), ("content_length", "CONTENT_LENGTH", " 12 "), ("content_length", "CONTENT_LENGTH", "+3"), ("form", "CONTENT_TYPE", "multipart/form-data"), ("form", "CONTENT_TYPE", "multipart/form-data; boundary=\xe9"),
             ("form", "CONTENT_TYPE", 'multipart/form-data; boundary="'), ("files", "CONTENT_TYPE", "multipart/form-data; boundary=a=1&b"), ("json", "CONTENT_TYPE", "application/json"),
             ("data", "CONTENT_TYPE", "application/x-www-form-urlencoded; charset=\xff"), ("form", "CONTENT_LENGTH", "99999999999999999999"), ("get_json", "CONTENT_TYPE", "application/json; charset=x"),
@@ -929,7 +970,9 @@ class Hostile(Stream):
             (["form"], "application/x-www-form-urlencoded", b"a=1", None), (["form"], "application/x-www-form-urlencoded", b"a=1", "x"), (["form"], "application/x-www-form-urlencoded", b"a=1", "99999999999999999999"),
             (["form"], "application/x-www-form-urlencoded", b"a=1", "1"), (["data", "form"], "application/x-www-form-urlencoded", b"a=1", "="), (["get_data", "form", "data"], "application/x-www-form-urlencoded", b"a=1&b=\xff", "="),
             (["stream.read", "form"], "application/x-www-form-urlencoded", b"a=1", "="), (["form"], None, b"a=1", "="), (["form"], "", b"a=1", "="), (["values", "files", "close"], "multipart/form-data; boundary=x", b"--x--", "="),
-            (["get_data_text"], "text/plain; charset=bogus", b"\xff", "="), (["form"], "application/x-www-form-urlencoded", b"a=" + b"x" * 600000, "="),
+            (["get_data_text"], "text/plain; charset=bogus", b"\xff", "="),
+            (["form"], "multipart/form-data; boundary=x", b'--x\r\nContent-Disposition: form-data\r\n\r\n1\r\n--x\r\nContent-Disposition: form-data; name="a"\r\n\r\n2\r\n--x\r\nContent-Disposition: form-data\r\n\r\n3\r\n--x--', "="),
+            (["files"], "multipart/form-data; boundary=x", b'--x\r\nContent-Disposition: form-data; name="f"; filename="1"\r\n\r\n1\r\n--x\r\nContent-Disposition: form-data; name="g"; filename="2"\r\n\r\n2\r\n--x\r\nContent-Disposition: form-data; name="f"; filename="3"\r\n\r\n3\r\n--x--', "="), (["form"], "application/x-www-form-urlencoded", b"a=" + b"x" * 600000, "="),
         ]]
     )
 
@@ -980,7 +1023,7 @@ class Hostile(Stream):
             return f"HTTP:{e.code}"
         except Timeout:
             state["hung"] = True
-            raise
+            return "EXC:Timeout"
 
     def model_line(self, case):
         st = self.__dict__.get("_hang_state")
@@ -988,7 +1031,11 @@ class Hostile(Stream):
             return None
         if case["k"] == "p":
             cmd = PARSER_CMD.get(case["name"])
+            if has_huge_number(unhs(case["s"])):
+                return None  # the model's integers are unbounded (CPython refuses > 4300 digits with ValueError)
             return None if cmd is None else line(cmd, case["s"])
+        if case["k"] == "a" and any(has_huge_number(unhs(v)) for v in case["env"].values()):
+            return None
         if case["k"] == "r":
             return None
         if case["k"] == "b":
@@ -1085,7 +1132,7 @@ class Hostile(Stream):
             if out.startswith(("EXC:", "BAD", "UNKNOWN")) or out == "ok":
                 return out
             fields, _, files = out.partition("|")
-            return "V:" + (fields if case["seq"][0] == "form" else files)
+            return "V:" + group_first(fields if case["seq"][0] == "form" else files)
         if case["k"] == "p":
             name = case["name"]
         elif case["attr"] in ("max_forwards", "content_length", "access_control_request_headers", "if_range"):
@@ -1250,7 +1297,16 @@ def model_cc_get(d, key, empty, ty):
     if v is None:
         return empty
     if ty is int:
-        t = v.strip()
+        import unicodedata
+
+        # Model.Http.pyInt: every Unicode decimal digit becomes its ASCII digit, int()'s white space
+        # (str.isspace without U+001C..U+001F) is stripped, optional sign, digits with single underscores
+        t = "".join(str(unicodedata.decimal(c)) if c.isdecimal() else c for c in v)
+        sp = lambda c: c.isspace() and not ("\x1c" <= c <= "\x1f")  # noqa: E731
+        while t and sp(t[0]):
+            t = t[1:]
+        while t and sp(t[-1]):
+            t = t[:-1]
         sign = 1
         if t[:1] in ("+", "-"):
             sign = -1 if t[0] == "-" else 1
@@ -1264,7 +1320,7 @@ def model_cc_get(d, key, empty, ty):
 
 CHECK = Check(
     prop="C07",
-    gen=["Http", "RequestGlue", "RequestSurface", "Regexes", "DateExc", "Cookie", "Urlencode", "Containers", "Multipart", "PyFns_Http", "PyFns_Internal", "PyFns_HttpDict", "PyFns_HttpOptions", "PyFns_Etag", "PyFns_Range", "PyFns_Response"],
+    gen=["Http", "RequestGlue", "RequestSurface", "Regexes", "DateExc", "Cookie", "Urlencode", "Containers", "Multipart", "PyFns_Http", "PyFns_Internal", "PyFns_HttpDict", "PyFns_HttpOptions", "PyFns_Etag", "PyFns_Range", "PyFns_Response", "CacheSetTable", "Response", "ResponseProps", "UrlTables", "Views"],
     modules=["WzVerif.Props.C07", "WzVerif.Props.C07T"],
     streams=[Hostile()],
     assumptions=[
